@@ -10,8 +10,42 @@ def _scales():
     common.write_if_changed(os.path.join(common.COQ, "Gen", "Scales.v"), text)
 
 
-TRANSLATORS = [("tr_scales", _scales)]
-GEN_FILES = ["Gen/Scales.v"]
+def _regex():
+    import tr_regex
+    text, _ = tr_regex.translate(common.REPO, None)
+    common.write_if_changed(os.path.join(common.COQ, "Gen", "Regexes.v"), text)
+
+
+def _tables():
+    import tr_tables
+    t = tr_tables.dump(common.REPO, common.PY)
+    common.write_if_changed(os.path.join(common.COQ, "Gen", "Tables.v"), tr_tables.emit(t, "lib", "live tables of /repo"))
+
+
+TRANSLATORS = [("tr_scales", _scales), ("tr_tables", _tables)]
+GEN_FILES = ["Gen/Scales.v", "Gen/Tables.v"]
+TRANSLATORS.append(("tr_regex", _regex))
+GEN_FILES.append("Gen/Regexes.v")
+
+
+def _callsites():
+    import tr_callsites
+    text, _ = tr_callsites.translate(common.REPO, None)
+    common.write_if_changed(os.path.join(common.COQ, "Gen", "CallSites.v"), text)
+
+
+TRANSLATORS.append(("tr_callsites", _callsites))
+GEN_FILES.append("Gen/CallSites.v")
+
+
+def _heapworld():
+    import tr_heapworld
+    text, _ = tr_heapworld.translate(common.REPO, common.PY)
+    common.write_if_changed(os.path.join(common.COQ, "Gen", "HeapWorld.v"), text)
+
+
+TRANSLATORS.append(("tr_heapworld", _heapworld))
+GEN_FILES.append("Gen/HeapWorld.v")
 
 
 def run_all():
